@@ -672,6 +672,12 @@ def main(checks):
             checks[a.prop](ck)
         return ck.finish()
     except InfraError as ex:
+        if ck.violations:
+            # violations already observed on the real code stand; the part of the check that could not be run is
+            # recorded (a tree on which the machinery itself breaks down after showing violations is not "unknown")
+            print("INFRA-NOTE property=%s the check stopped early: %s" % (a.prop, str(ex)[:1500]))
+            ck.extra["stopped_early"] = str(ex)[:1500]
+            return ck.finish()
         print("INFRA-ERROR property=%s %s" % (a.prop, str(ex)[:3000]))
         ck.cleanup()
         return 2
